@@ -147,12 +147,17 @@ pub fn router_for(payload: &Payload, opts: StreamOpts) -> Router {
     router_for_stall(payload, opts, false)
 }
 
-/// `may_stall`: a reader / writer producer sometimes stops for 3 or 5 simulated seconds,
+/// `may_stall`: a reader / writer producer sometimes stops for 3 to 12 simulated seconds,
 /// once, somewhere in mid-stream (longer than any keep-alive or retry period one might put
 /// on a `next`).
 pub fn router_for_stall(payload: &Payload, opts: StreamOpts, may_stall: bool) -> Router {
+    router_for_stall_p(payload, opts, if may_stall { 6 } else { 0 })
+}
+
+/// `one_in`: 0 = never stall; otherwise one run in `one_in` stalls once for 3, 5, 8 or 12 s.
+pub fn router_for_stall_p(payload: &Payload, opts: StreamOpts, one_in: u32) -> Router {
     let total = payload.logical().len();
-    let stall: Option<(usize, u64)> = if may_stall && total > 0 && simkernel::choose(6) == 0 { Some((simkernel::choose(total as u32) as usize, pick(&[3u64, 5]))) } else { None };
+    let stall: Option<(usize, u64)> = if one_in > 0 && total > 0 && simkernel::choose(one_in) == 0 { Some((simkernel::choose(total as u32) as usize, pick(&[3u64, 5, 8, 12]))) } else { None };
     let step = pick(&[1usize, 3, 64, 4096]);
     let sleep_us = pick(&[0u64, 0, 50, 1_000]);
     let panics = simkernel::choose(3) == 0;
